@@ -7,7 +7,7 @@ from .abstract import AbstractPaths
 import numpy as np
 
 from autofit.database.model import Fit
-from autoconf.dictable import to_dict
+from autoconf.dictable import to_dict, from_dict
 from autofit.database.aggregator.info import Info
 
 
@@ -269,6 +269,26 @@ class DatabasePaths(AbstractPaths):
     ):
         self.fit.instance = samples.max_log_likelihood()
         self.fit.max_log_likelihood = samples.max_log_likelihood_sample.log_likelihood
+
+    def save_samples_summary(self, samples_summary):
+        """
+        Save the samples summary as a JSON in the database, so that a completed fit can be loaded
+        without its full samples (as `DirectoryPaths` does with `samples_summary.json`).
+        """
+        model = samples_summary.model
+        samples_summary.model = None
+        try:
+            self.save_json("samples_summary", to_dict(samples_summary))
+        finally:
+            samples_summary.model = model
+
+    def load_samples_summary(self):
+        try:
+            samples_summary = from_dict(self.load_json("samples_summary"))
+        except KeyError as e:
+            raise FileNotFoundError("No samples summary has been saved for this fit") from e
+        samples_summary.model = self.model
+        return samples_summary
 
     def save_samples(self, samples):
         if not self.save_all_samples:
